@@ -148,6 +148,7 @@ pub fn map(m: BTreeMap<i64, V>) -> V {
 // observables ----------------------------------------------------------------------------------
 
 #[derive(Clone, Copy, PartialEq, Eq, Debug)]
+#[allow(dead_code)]
 pub enum Fk {
     Seq,
     Bag,
